@@ -4,22 +4,9 @@ package app
 
 import (
 	"bytes"
-	"os"
 
 	"github.com/Eyevinn/mp4ff/mp4"
 )
-
-// vLoadInit loads the real init segment of rep (native side; the generated asset tables carry no boxes).
-func vLoadInit(rep *RepData) {
-	raw, err := os.ReadFile("testdata/assets/testpic_2s/" + rep.InitURI)
-	if err != nil {
-		panic(err)
-	}
-	rep.initSeg, err = getInitSeg(raw)
-	if err != nil {
-		panic(err)
-	}
-}
 
 // vWrittenSpans decodes what was written to the client and returns the media span of every fragment (native side).
 func vWrittenSpans(w *vRW2) []int {
